@@ -72,7 +72,7 @@ fn ident(n: usize) -> String {
     s
 }
 
-fn strings_db(rows: u32) -> AbsDb {
+pub fn strings_db(rows: u32) -> AbsDb {
     let key = AbsCol { def: ColDef::new("k", Ty::Str(0)).key(), width1: false, nullable_in_bits: false, nullable_in_validation: false, validated: true };
     let t = AbsTable { name: "S".into(), cols: vec![key], rows: (0..rows).map(|i| vec![V::Str(format!("s{i:06}"))]).collect() };
     AbsDb {
